@@ -35,7 +35,7 @@ SPEC = dict(
             I('form_ref_1s_n', 'h_form_ref', (1, 0, None, 0, 1, 1, 0, 0), bound='FORM_TYPE + one text-single field with 0..1 value'),
             I('form_ref_2s', 'h_form_ref', (1, 0, 1, 1, 2, 1, 2, 0), bound='two text-single fields, FORM_TYPE last'),
             I('form_ref_noft', 'h_form_ref', (1, 1, 1, 0, 1, 0, 0, 0), bound='form without FORM_TYPE (ignored)'),
-            I('form_kf_empty', 'h_form_kf_empty', (), known_finding='empty_field_value', bound='FORM_TYPE + one text-single field with the empty value'),
+            I('form_ref_1s_empty', 'h_form_empty_value', (), bound='FORM_TYPE + one text-single field with the empty value (regression for fix 13f5df9)'),
         ]),
     ],
     bounds=['strings: 0..2 UTF-16 units over the alphabet {a, b, B}', '<= 2 identities (category/type/lang/name), <= 3 features with duplicates, optional form with FORM_TYPE (any position) and <= 2 further fields with <= 2 values',
